@@ -208,6 +208,10 @@ func init() {
 			return nil
 		}
 	}
+	prog.ResolveAlias = func(info *types.Info, id *ast.Ident) *ast.Ident {
+		next, _ := ast.Unparen(derefStepQuiet(info, id)).(*ast.Ident)
+		return next
+	}
 	pathsim.PredicateBody = func(info *types.Info, call *ast.CallExpr) ast.Expr {
 		return predicateBody(info, call)
 	}
@@ -753,4 +757,20 @@ func soleReturnExpr(info *types.Info, call *ast.CallExpr) ast.Expr {
 		return nil
 	}
 	return only
+}
+
+// derefStepQuiet is derefStep guarded against re-entry (derefStep's own lookups use IdentObj).
+var inDerefStep bool
+
+func derefStepQuiet(info *types.Info, id *ast.Ident) ast.Expr {
+	if inDerefStep {
+		return nil
+	}
+	inDerefStep = true
+	defer func() { inDerefStep = false }()
+	d := derefStep(info, id)
+	if d == nil {
+		return nil
+	}
+	return d
 }
